@@ -656,3 +656,30 @@ Proof.
 Qed.
 
 End Protected.
+
+(* the boolean premise evaluated by the check (Engine/Check8.v c08_inv) implies the invariant *)
+Lemma c08_inv_Inv : forall st x l ex b, c08_inv st x l ex b = true -> Inv x l ex b st.
+Proof.
+  intros st x l ex b H. unfold c08_inv in H.
+  apply andb_prop in H. destruct H as [H Hsb]. apply andb_prop in H. destruct H as [H Hrf].
+  apply andb_prop in H. destruct H as [H Hh]. apply andb_prop in H. destruct H as [Hle Hum].
+  unfold lock_everywhere, unmarked, held, no_read_faults, same_bytes in *.
+  rewrite forallb_forall in Hle, Hum, Hrf, Hsb. split.
+  - apply Forall_forall. intros s Hs.
+    specialize (Hle s Hs). specialize (Hum s Hs). specialize (Hrf s Hs). specialize (Hsb s Hs).
+    apply andb_prop in Hle. destruct Hle as [Hle Htl]. apply andb_prop in Hle. destruct Hle as [Hlr Hgl].
+    apply andb_prop in Hum. destruct Hum as [Hgx Htx].
+    apply negb_true_iff in Htl, Hgl, Hgx, Htx, Hrf. unfold has in Hgl, Hgx.
+    unfold good. repeat split.
+    + unfold lockrec. destruct (lookup l (s_meta s)) as [[[|t|t] ex']|]; try discriminate.
+      apply andb_prop in Hlr. destruct Hlr as [Ht He]. apply N.eqb_eq in Ht. subst t.
+      destruct ex as [a|], ex' as [c|]; try discriminate; auto. apply N.eqb_eq in He. subst; auto.
+    + destruct (lookup l (s_garb s)); auto; discriminate.
+    + exact Htl.
+    + destruct (lookup x (s_garb s)); auto; discriminate.
+    + exact Htx.
+    + exact Hrf.
+    + intros b' Hb. rewrite Hb in Hsb. apply N.eqb_eq in Hsb. auto.
+  - apply existsb_exists in Hh. destruct Hh as (s & Hs & Hb). apply Exists_exists. exists s. split; auto.
+    apply andb_prop in Hb. destruct Hb as [Hb Hm]. split; auto. apply blob_is_inv; auto.
+Qed.
